@@ -1,4 +1,165 @@
-(* C06 — reference resolution follows RFC 3986 section 5.2.  Statements only. *)
-From Coq Require Import List NArith.
-From UP Require Import Base.Chars Model.Uri Model.Common Model.Resolve Spec.Resolve.
+(* C06 — reference resolution follows RFC 3986 section 5.2.  Statements only.
+
+   Vocabulary (definitions in Proofs/ResolveProofs.v and Proofs/DotSegments.v):
+     five_of_uri u   the five RFC components of a URI object as texts: scheme; authority =
+                     [userinfo "@"] host-as-written (in brackets for IP literals) [":" port], defined when
+                     uriIsHostSet; path = the segments as uriToString prints them; query; fragment
+     wf u            what the parser guarantees of an object: no "/" inside a segment; with a host the
+                     absolute-path flag is off; a host-less absolute path does not print as "//..."; a
+                     host-less rootless path does not begin with an empty segment; no NUL in the scheme
+     corner_obj      host-less result, rootless path to clean (the reference's own, or the merge with a
+                     host-less rootless base), and an empty first segment after cleaning.  There "never
+                     turn a rootless path into an absolute one" and "the RFC's target" cannot both hold;
+                     C06_corner_is_spec_corner: it is exactly Spec.Resolve.unspecified_corner, the corner
+                     the run-time oracle (gen/c06.py) leaves out.
+   Spec.Resolve.transform is RFC 3986 5.2.2 with the 5.2.3 merge and the 5.2.4 loop (through
+   rds_keep_kind); its first argument [strict] is false under the identical-scheme compatibility option.
+   guard_slashes puts "/." in front of a host-less path beginning with "//" and does nothing else. *)
+From Coq Require Import List NArith Bool String.
+From UP Require Import Base.Chars Model.Uri Model.Common Model.Resolve Model.Recompose Spec.Resolve
+  Proofs.DotSegments Proofs.ResolveProofs.
 Import ListNotations.
+Local Open Scope N_scope.
+
+(* ---- the resolution theorem: every absolute base, every reference, both option values ------------- *)
+Theorem C06_resolve : forall compat rel base,
+  wf rel = true -> wf base = true -> scheme base <> None -> corner_obj compat rel base = false ->
+  fst (add_base compat rel base) = URI_SUCCESS
+  /\ five_of_uri (snd (add_base compat rel base))
+     = guard_slashes (transform (negb compat) (five_of_uri base) (five_of_uri rel)).
+Proof. exact resolve_five_obj. Qed.
+Print Assumptions C06_resolve.
+
+(* the excluded corner is the specification's, not one chosen to fit the model *)
+Theorem C06_corner_is_spec_corner : forall compat rel base,
+  wf rel = true -> wf base = true -> scheme base <> None ->
+  unspecified_corner (negb compat) (five_of_uri base) (five_of_uri rel) = corner_obj compat rel base.
+Proof. exact corner_obj_spec. Qed.
+Print Assumptions C06_corner_is_spec_corner.
+
+(* user info, host text, host kind with its data, port: field by field those of the reference when it
+   keeps its scheme or has an authority, else those of the base *)
+Theorem C06_authority : forall compat rel base,
+  one_kind rel = true -> one_kind base = true -> scheme base <> None ->
+  auth_fields (snd (add_base compat rel base))
+  = auth_fields (if keeps_scheme compat (scheme base) rel || is_host_set rel then rel else base).
+Proof. exact resolve_authority. Qed.
+Print Assumptions C06_authority.
+
+(* the text uriToString gives for the result is the RFC 5.3 recomposition of the target (hosts that are
+   printed as written: no IP data, which uriToString re-renders from the numeric value) *)
+Theorem C06_text : forall compat rel base,
+  wf rel = true -> wf base = true -> scheme base <> None -> corner_obj compat rel base = false ->
+  no_ip rel = true -> no_ip base = true ->
+  to_text (snd (add_base compat rel base))
+  = recompose (guard_slashes (transform (negb compat) (five_of_uri base) (five_of_uri rel))).
+Proof. exact resolve_text_obj. Qed.
+Print Assumptions C06_text.
+
+(* ---- a base without scheme is rejected, the destination left reset -------------------------------- *)
+Theorem C06_rel_base : forall compat rel base, scheme base = None ->
+  add_base compat rel base = (URI_ERROR_ADDBASE_REL_BASE, empty_uri).
+Proof. exact add_base_rel_base. Qed.
+Print Assumptions C06_rel_base.
+
+(* ---- the identical-scheme compatibility option ----------------------------------------------------- *)
+Theorem C06_compat : forall rel base, scheme base <> None -> scheme rel = scheme base ->
+  add_base true rel base = add_base true (set_scheme None rel) base.
+Proof. exact add_base_compat. Qed.
+Print Assumptions C06_compat.
+
+(* and it changes nothing else: no scheme in the reference, or another one (uriCompareRange) *)
+Theorem C06_compat_other : forall rel base,
+  is_some (scheme rel) && range_eqb (scheme base) (scheme rel) = false ->
+  add_base true rel base = add_base false rel base.
+Proof. exact add_base_compat_other. Qed.
+Print Assumptions C06_compat_other.
+
+(* ---- dot-segment removal: the segment walk of uriRemoveDotSegmentsEx in absolute mode is the string
+   loop of RFC 3986 5.2.4.  A rooted path prints as "/" before every segment; the results [] (host-less,
+   everything cancelled) and [[]] both print as "/" (rooted_text). -------------------------------- *)
+Theorem C06_dot_segments : forall host abs segs, segs <> [] -> forallb noslash segs = true ->
+  rooted_text (rds_walk false host abs [] segs)
+  = Spec.Resolve.remove_dot_segments (path_text_rooted segs).
+Proof. exact rds_walk_rfc. Qed.
+Print Assumptions C06_dot_segments.
+
+(* a rootless path stays rootless: cleaned as if rooted, the root taken off again *)
+Theorem C06_dot_segments_rootless : forall host abs segs, segs <> [] -> forallb noslash segs = true ->
+  head_is 47 (join_text segs) = false ->
+  join_text (rds_walk false host abs [] segs) = rds_keep_kind (join_text segs).
+Proof. exact rds_walk_rfc_rootless. Qed.
+Print Assumptions C06_dot_segments_rootless.
+
+(* no "." or ".." segment is left, and the walk is idempotent *)
+Theorem C06_dot_segments_gone : forall host abs segs,
+  Forall (fun s => s <> [46] /\ s <> [46; 46]) (rds_walk false host abs [] segs).
+Proof. exact rds_walk_nodots_Forall. Qed.
+Print Assumptions C06_dot_segments_gone.
+
+Theorem C06_dot_segments_idempotent : forall host abs segs,
+  rds_walk false host abs [] (rds_walk false host abs [] segs) = rds_walk false host abs [] segs.
+Proof. exact rds_walk_idempotent. Qed.
+Print Assumptions C06_dot_segments_idempotent.
+
+(* ---- uriMergePath on segment lists is RFC 3986 5.2.3 on texts ------------------------------------- *)
+Theorem C06_merge : forall abs host bsegs rsegs, rsegs <> [] -> forallb noslash bsegs = true ->
+  path_text_of abs host (removelast bsegs ++ rsegs)
+  = merge host (path_text_of abs host bsegs) (join_text rsegs).
+Proof. exact merge_text. Qed.
+Print Assumptions C06_merge.
+
+(* ---- non-vacuity ------------------------------------------------------------------------------------ *)
+Local Open Scope string_scope.
+
+(* RFC 3986 5.4.1 and 5.4.2, all of them: the parsed objects satisfy every hypothesis of C06_resolve and
+   C06_text, and the model's text is the one the RFC lists *)
+Example C06_rfc_5_4 :
+  let b := "http://a/b/c/d;p?q" in
+  wf (uri_of b) = true /\ no_ip (uri_of b) = true /\ scheme (uri_of b) <> None /\
+  forallb (fun '(r, e) => text_eqb (resolved_text false b r) (txt e)
+                          && wf (uri_of r) && no_ip (uri_of r) && negb (corner_obj false (uri_of r) (uri_of b))
+                          && negb (corner_obj true (uri_of r) (uri_of b)))
+    [("g:h","g:h"); ("g","http://a/b/c/g"); ("./g","http://a/b/c/g"); ("g/","http://a/b/c/g/");
+     ("/g","http://a/g"); ("//g","http://g"); ("?y","http://a/b/c/d;p?y"); ("g?y","http://a/b/c/g?y");
+     ("#s","http://a/b/c/d;p?q#s"); ("g#s","http://a/b/c/g#s"); ("g?y#s","http://a/b/c/g?y#s");
+     (";x","http://a/b/c/;x"); ("g;x","http://a/b/c/g;x"); ("g;x?y#s","http://a/b/c/g;x?y#s");
+     ("","http://a/b/c/d;p?q"); (".","http://a/b/c/"); ("./","http://a/b/c/"); ("..","http://a/b/");
+     ("../","http://a/b/"); ("../g","http://a/b/g"); ("../..","http://a/"); ("../../","http://a/");
+     ("../../g","http://a/g");
+     ("../../../g","http://a/g"); ("../../../../g","http://a/g"); ("/./g","http://a/g"); ("/../g","http://a/g");
+     ("g.","http://a/b/c/g."); (".g","http://a/b/c/.g"); ("g..","http://a/b/c/g.."); ("..g","http://a/b/c/..g");
+     ("./../g","http://a/b/g"); ("./g/.","http://a/b/c/g/"); ("g/./h","http://a/b/c/g/h");
+     ("g/../h","http://a/b/c/h"); ("g;x=1/./y","http://a/b/c/g;x=1/y"); ("g;x=1/../y","http://a/b/c/y");
+     ("g?y/./x","http://a/b/c/g?y/./x"); ("g?y/../x","http://a/b/c/g?y/../x");
+     ("g#s/./x","http://a/b/c/g#s/./x"); ("g#s/../x","http://a/b/c/g#s/../x"); ("http:g","http:g")] = true
+  /\ resolved_text true b "http:g" = txt "http://a/b/c/g".
+Proof. vm_compute. repeat split. discriminate. Qed.
+
+(* small scope: every text of at most 6 characters over "/.a:?@[" that the parser accepts yields an object
+   satisfying wf and one_kind (the hypotheses of C06_resolve / C06_authority are what parsing guarantees) *)
+Example C06_wf_of_parsed :
+  forallb parsed_wf (all_texts [47; 46; 97; 58; 63; 64; 91]%N 6) = true.
+Proof. vm_compute. reflexivity. Qed.
+
+(* the "/." guard is used: a host-less target whose path begins with "//" *)
+Example C06_guard_used :
+  wf (uri_of "s:/a") = true /\ wf (uri_of "..//c") = true /\ corner_obj false (uri_of "..//c") (uri_of "s:/a") = false
+  /\ resolved_text false "s:/a" "..//c" = txt "s:/.//c".
+Proof. vm_compute. repeat split. Qed.
+
+(* a relative base *)
+Example C06_rel_base_used : add_base false (uri_of "g") (uri_of "//a/b") = (URI_ERROR_ADDBASE_REL_BASE, empty_uri).
+Proof. vm_compute. reflexivity. Qed.
+
+(* the corner is inhabited by parsed URIs, and its exclusion from C06_resolve is necessary: base "s:a",
+   reference ".///c": the model keeps the path rootless (".///c"), the RFC's target with the guard is
+   "/.//c" *)
+Example C06_corner_necessary :
+  exists rel base, wf rel = true /\ wf base = true /\ scheme base <> None
+    /\ corner_obj false rel base = true
+    /\ five_of_uri (snd (add_base false rel base))
+       <> guard_slashes (transform true (five_of_uri base) (five_of_uri rel)).
+Proof.
+  exists (uri_of ".///c"), (uri_of "s:a"). vm_compute. repeat split; discriminate.
+Qed.
